@@ -587,8 +587,12 @@ func NumberFormat(fn parser.Function, args []value.Primary, _ *option.Flags) (va
 	if 1 < len(args) {
 		i := value.ToInteger(args[1])
 		if !value.IsNull(i) {
-			precision = int(i.(*value.Integer).Raw())
+			n := i.(*value.Integer).Raw()
 			value.Discard(i)
+			if math.MaxInt32 < n {
+				return nil, NewFunctionInvalidArgumentError(fn, fn.Name, "precision is too large")
+			}
+			precision = int(n)
 		}
 	}
 	if 2 < len(args) {
